@@ -176,6 +176,18 @@ func c16Check(c *kit.Ctx, uname string, right string, admin bool, rightKind auth
 			}()
 			allow = got.ValidatePermission(p.s, rightKind)
 		}()
+		if rjudged && !p.judged && allow && len(p.s) > 0 && p.s[0] == '/' {
+			// Outside the judged domain (blank or empty segments, trailing '/') the guide does not say how a path is
+			// read - but every reading compares literal pattern segments with the path's segments. If NO reading
+			// (segments as split and trimmed; empty segments dropped; only trailing empty segments dropped) lets any
+			// pattern match, a grant has no basis in the guide.
+			if !c16AnyReadingAllows(pats, p.s) {
+				stats[2]++
+				c.Violation("C16:allows-what-no-reading-of-the-guide-allows", map[string]interface{}{"right": right, "admin": admin, "path": p.s,
+					"kind": int(rightKind)})
+				continue
+			}
+		}
 		if !rjudged || !p.judged {
 			stats[3]++
 			continue
@@ -198,9 +210,51 @@ func c16Check(c *kit.Ctx, uname string, right string, admin bool, rightKind auth
 	}
 }
 
+// c16AnyReadingAllows: does any lenient reading of an out-of-domain path let a pattern match?
+func c16AnyReadingAllows(pats []refPattern, path string) bool {
+	raw := strings.Split(path[1:], "/")
+	var readings [][]string
+	for _, trim := range []bool{true, false} {
+		var segs []string
+		for _, x := range raw {
+			if trim {
+				x = strings.TrimSpace(x)
+			}
+			segs = append(segs, strings.ToLower(x))
+		}
+		isEmpty := func(x string) bool { return strings.TrimSpace(x) == "" }
+		readings = append(readings, segs)
+		var noEmpty []string
+		for _, x := range segs {
+			if !isEmpty(x) {
+				noEmpty = append(noEmpty, x)
+			}
+		}
+		readings = append(readings, noEmpty)
+		// leading / trailing empty segments dropped one at a time (a trailing '/', a doubled leading '/')
+		for lo := 0; lo <= len(segs); lo++ {
+			if lo > 0 && !isEmpty(segs[lo-1]) {
+				break
+			}
+			for hi := len(segs); hi >= lo; hi-- {
+				if hi < len(segs) && !isEmpty(segs[hi]) {
+					break
+				}
+				readings = append(readings, segs[lo:hi])
+			}
+		}
+	}
+	for _, segs := range readings {
+		if refAllow(pats, segs) {
+			return true
+		}
+	}
+	return false
+}
+
 func runC16(c *kit.Ctx) {
 	rightAlpha := "aB+*/; "
-	pathAlpha := "aAb/"
+	pathAlpha := "aAb/ "
 	maxR, maxP := 6, 5
 	if c.Thorough() {
 		maxR, maxP = 7, 6
